@@ -429,18 +429,20 @@ func operationName(rmid, info uint8) string {
 	case RM_HEAP2_ID:
 		switch info & 0x70 {
 		case 0x00:
-			return "PRUNE"
+			return "REWRITE"
 		case 0x10:
-			return "VACUUM"
+			return "PRUNE"
 		case 0x20:
-			return "FREEZE_PAGE"
+			return "VACUUM"
 		case 0x30:
-			return "VISIBLE"
+			return "FREEZE_PAGE"
 		case 0x40:
-			return "MULTI_INSERT"
+			return "VISIBLE"
 		case 0x50:
-			return "LOCK_UPDATED"
+			return "MULTI_INSERT"
 		case 0x60:
+			return "LOCK_UPDATED"
+		case 0x70:
 			return "NEW_CID"
 		}
 	case RM_XACT_ID:
@@ -481,6 +483,8 @@ func operationName(rmid, info uint8) string {
 		case 0x90:
 			return "END_OF_RECOVERY"
 		case 0xA0:
+			return "FPI_FOR_HINT"
+		case 0xD0:
 			return "OVERWRITE_CONTRECORD"
 		}
 	case RM_SMGR_ID:
@@ -498,7 +502,7 @@ func operationName(rmid, info uint8) string {
 			return "DROP"
 		}
 	case RM_BTREE_ID:
-		switch info & 0x70 {
+		switch info & 0xF0 {
 		case 0x00:
 			return "INSERT_LEAF"
 		case 0x10:
@@ -510,8 +514,10 @@ func operationName(rmid, info uint8) string {
 		case 0x40:
 			return "SPLIT_R"
 		case 0x60:
-			return "DELETE"
+			return "DEDUP"
 		case 0x70:
+			return "DELETE"
+		case 0x80:
 			return "UNLINK_PAGE"
 		}
 	}
